@@ -17,7 +17,9 @@ Inductive req := RCount (k : nat) | RThr (t : nat).      (* threshold identified
 Record stok := { s_fit : ftok; s_req : req }.            (* a selection: which weights, which request *)
 Inductive ctok := CBasis (f : ftok) | CCols (d : data) (s : stok).   (* what self.classifier was last trained on *)
 
-Record basis_st := { b_identity : bool; b_modes : option nat; b_fit : option (data * option nat) }.
+(* b_default: no number of modes was configured by the user (constructor default, never assigned since): an Identity basis then
+   takes all examples of the data of EVERY fit *)
+Record basis_st := { b_identity : bool; b_modes : option nat; b_default : bool; b_fit : option (data * option nat) }.
 
 Record sspoc := {
   basis : basis_st;
@@ -32,7 +34,7 @@ Record sspoc := {
 }.
 
 Definition ctor (ident : bool) (bmodes : option nat) (ns : option nat) (thr : option nat) : sspoc :=
-  {| basis := {| b_identity := ident; b_modes := bmodes; b_fit := None |}; refit_ := false; clf := None; n_sensors := ns; threshold := thr;
+  {| basis := {| b_identity := ident; b_modes := bmodes; b_default := match bmodes with None => true | Some _ => false end; b_fit := None |}; refit_ := false; clf := None; n_sensors := ns; threshold := thr;
      nbm := None; fitted := None; sel := None; dummy := None |}.
 
 Inductive err := ValueError | NotFittedError.
@@ -66,11 +68,13 @@ Definition update_sensors (s : sspoc) (nreq : option nat) (treq : option nat) (x
 
 (* fit(x, y, prefit_basis, refit).  The basis keeps its own n_basis_modes (SVD / RandomProjection / Identity(k)). *)
 Definition fit (s : sspoc) (d : data) (prefit refit : bool) (cnt : nat) : sspoc * option err :=
-  (* basis.fit(x): Identity() freezes its default number of modes to the number of examples *)
-  let bm' := match b_modes (basis s) with None => Some (d_rows d) | Some k => Some k end in
-  let b := if prefit then basis s else {| b_identity := b_identity (basis s); b_modes := bm'; b_fit := Some (d, bm') |} in
-  (* Identity.fit rejects data with fewer examples than n_basis_modes *)
-  let too_few := negb prefit && b_identity (basis s) && match b_modes (basis s) with Some k => d_rows d <? k | None => false end in
+  (* basis.fit(x): Identity() with the default setting takes all examples of THIS data *)
+  let bm' := if b_default (basis s) then Some (d_rows d) else b_modes (basis s) in
+  let b := if prefit then basis s
+           else {| b_identity := b_identity (basis s); b_modes := bm'; b_default := b_default (basis s); b_fit := Some (d, bm') |} in
+  (* Identity.fit rejects data with fewer examples than a user-chosen n_basis_modes *)
+  let too_few := negb prefit && b_identity (basis s) && negb (b_default (basis s)) &&
+                 match b_modes (basis s) with Some k => d_rows d <? k | None => false end in
   if too_few then (s, Some ValueError) else
   match b_fit b with
   | None => (s, Some NotFittedError)
@@ -104,7 +108,7 @@ Definition update_n_basis_modes (s : sspoc) (k : nat) (d : data) (refit : bool) 
        fitted := fitted s; sel := sel s; dummy := dummy s |} in
   if have then fit (setk s (basis s)) d true refit cnt
   else if d_rows d <? k then (s, Some ValueError)
-  else fit (setk s {| b_identity := b_identity (basis s); b_modes := Some k; b_fit := b_fit (basis s) |}) d false refit cnt.
+  else fit (setk s {| b_identity := b_identity (basis s); b_modes := Some k; b_default := false; b_fit := b_fit (basis s) |}) d false refit cnt.
 
 (* ---------- predict ---------- *)
 Inductive input := AtSensors | FullState.
